@@ -183,7 +183,7 @@ class TruncQ(EffectsQ):
 class CreateQ(EffectsQ):
     """effects mode over the file-backed (new file) and anonymous-map constructors and Options::data_offset_in: obligations L0-L2 of C16"""
     name, props = "effects_create_path", ["C16"]
-    module, native_flag, min_obligations = "mirsmt.create", "--create-check", 4
+    module, native_flag, min_obligations = "mirsmt.create", "--create-check", 5
     cross_check = True
 
     def bounds(self):
